@@ -177,16 +177,22 @@ def case_of(ev):
     """The input of an event (what `vh-snapalg one` needs to run it again)."""
     op = ev.get("op")
     if op == "pair":
-        return {"op": "pair", "A": ev["A"], "B": ev["B"], "osz": ev["osz"]}
+        return _with_prev({"op": "pair", "A": ev["A"], "B": ev["B"], "osz": ev["osz"]}, ev)
     if op == "snap":
-        return {"op": "snap", "adds": ev["adds"], "adds2": ev["adds2"], **({"base": ev["base"]} if "base" in ev else {}),
+        return _with_prev({"op": "snap", "adds": ev["adds"], "adds2": ev["adds2"], **({"base": ev["base"]} if "base" in ev else {}),
                 "probe": [[p["ty"], p["i"]] for p in ev.get("probes", [])],
-                "copies": sorted({c["src"] for c in ev.get("copies", [])} | {r["src"] for r in ev.get("rec", [])})}
+                "copies": sorted({c["src"] for c in ev.get("copies", [])} | {r["src"] for r in ev.get("rec", [])})}, ev)
     c = {"op": "parse", "kind": ev["kind"], "w": ev["w"], "adds2": ev["adds2"], "osz": ev.get("osz", [])}
     if ev["kind"] in ("si", "sb"):
         c["other"] = ev.get("other", [])
     else:
         c["base"] = ev.get("base", [])
+    return _with_prev(c, ev)
+
+
+def _with_prev(c, ev):
+    if "prev" in ev:
+        c["prev"] = ev["prev"]
     return c
 
 
